@@ -12,11 +12,15 @@ pub struct C04;
 const STEXT: [char; 8] = [' ', 'a', 'é', 'я', '一', '°', '-', '|'];
 
 fn is_label(c: char) -> bool {
-    matches!(c, 'a' | 'b' | 'é' | 'я' | '一' | '二' | 'z' | '1' | '°')
+    matches!(c, 'a' | 'b' | 'é' | 'я' | '一' | '二' | 'z' | '1' | '°' | '&')
 }
 
 /// compare the text elements of `d` with the label characters of `input`
 pub fn check_texts(cx: &mut Cx, input: &str, d: &Doc, drawing_chars_never_text: bool) {
+    check_texts_scaled(cx, input, d, drawing_chars_never_text, 8.0)
+}
+
+pub fn check_texts_scaled(cx: &mut Cx, input: &str, d: &Doc, drawing_chars_never_text: bool, sc: f64) {
     let rows: Vec<Vec<char>> = refmodel::rows(input).iter().map(|r| refmodel::expand(r)).collect();
     let mut want: BTreeMap<(usize, usize), char> = BTreeMap::new();
     for (r, row) in rows.iter().enumerate() {
@@ -28,8 +32,8 @@ pub fn check_texts(cx: &mut Cx, input: &str, d: &Doc, drawing_chars_never_text: 
     }
     let mut got: BTreeMap<(usize, usize), (char, usize)> = BTreeMap::new();
     for t in d.of(Kind::Text) {
-        let col = (t.xs[0] - 2.0) / 8.0;
-        let row = (t.ys[0] - 12.0) / 16.0;
+        let col = ((t.xs[0] - sc / 4.0) / sc * 1e6).round() / 1e6;
+        let row = ((t.ys[0] - 1.5 * sc) / (2.0 * sc) * 1e6).round() / 1e6;
         if col.fract() != 0.0 || row.fract() != 0.0 || col < 0.0 || row < 0.0 {
             cx.fail("text-anchor", format!("{} is not anchored at point Q of a cell", t.brief()));
             return;
@@ -112,6 +116,23 @@ impl Prop for C04 {
                 }
             }
         }));
+        v.push(Scope::new("markup-as-text", "all rows over {a,<,>,&,',space} up to length 5: free-standing markup characters are text and must read back as themselves", |f| {
+            enumr::strings_upto(&['a', '<', '>', '&', '\'', ' '], 5, &mut |s| {
+                let row: String = s.iter().collect();
+                if row.contains('<') || row.contains('>') || row.contains('&') {
+                    f(Case::s(row))
+                }
+            })
+        }));
+        v.push(Scope::new("scales", "rows over {a,é,一,space} up to length 4 and labelled boxes at scales 0.5, 0.75, 1, 2.5, 20: the anchor must stay at point Q of the first character's cell", |f| {
+            enumr::strings_upto(&['a', 'é', '一', ' '], 4, &mut |s| {
+                let row: String = s.iter().collect();
+                for sc in [5i64, 75, 100, 250, 2000] {
+                    f(Case::sn(row.clone(), vec![sc]));
+                    f(Case::sn(format!("+------+\n|{:<6}|\n| {:<5}|\n+------+", row, row), vec![sc]));
+                }
+            })
+        }));
         let step = if tier == Tier::Quick { 4 } else { 1 };
         v.push(Scope::new("labels-near-shapes", "shape families (boxes, circles, arcs from corrupted circles, runs, arrows, overlapping diagonals): a one- or two-character label put on every blank cell of the drawing's bounding box and its one-cell surround, at the origin and shifted", move |f| {
             let mut ds: Vec<String> = shapes::family_samples(8).into_iter().enumerate().filter(|(i, _)| i % step == 0).map(|(_, x)| x.1).collect();
@@ -165,6 +186,16 @@ impl Prop for C04 {
         v
     }
     fn check(&self, scope: &str, case: &Case, cx: &mut Cx) {
+        if scope == "scales" {
+            let sc = case.n[0] as f64 / 100.0;
+            let d = match cx.conv_doc(&case.s, &Sett::bare_scale(sc as f32)) {
+                Some(d) => d,
+                None => return,
+            };
+            cx.compared();
+            check_texts_scaled(cx, &case.s, &d, false, sc);
+            return;
+        }
         let d = match cx.conv_doc(&case.s, &Sett::bare()) {
             Some(d) => d,
             None => return,
@@ -175,6 +206,6 @@ impl Prop for C04 {
             cx.outcome(&lens);
         }
         // in the shape scopes other drawing characters may legitimately be shown as text (an isolated '.')
-        check_texts(cx, &case.s, &d, scope != "labels-near-shapes");
+        check_texts(cx, &case.s, &d, scope != "labels-near-shapes" && scope != "markup-as-text");
     }
 }
